@@ -1,6 +1,7 @@
 package mon
 
 import (
+	"math/rand"
 	"github.com/openconfig/goyang/pkg/yang"
 	"github.com/openconfig/ygot/ygot"
 	"github.com/openconfig/ygot/zzverif/lib"
@@ -58,7 +59,30 @@ func runC32(r *lib.Run) {
 			before := cfg.Observe(t)
 			want := lib.NewObs()
 			nFalse, nTrue := 0, 0
+			// the struct handed to PruneConfigFalse: the root, or (every third case) a
+			// container / list entry below it with its own schema entry
+			target, tschema, scope := t, cfg.RootEntry(), "root"
+			var scopePath []lib.PathElem
+			if i%3 == 2 {
+				nodes := cfg.Nodes(t)
+				rng := rand.New(rand.NewSource(r.Seed*733 + int64(i)))
+				for tries := 0; tries < 8 && len(nodes) > 1; tries++ {
+					nd := nodes[1+rng.Intn(len(nodes)-1)]
+					se := cfg.Schema().SchemaTree[nd.V.Type().Elem().Name()]
+					gs, ok := nd.V.Interface().(ygot.GoStruct)
+					if se == nil || !ok {
+						continue
+					}
+					target, tschema, scope, scopePath = gs, se, "subtree", nd.Path
+					break
+				}
+			}
+			r.Hit("scope:" + scope)
 			for p, l := range before.Leaves {
+				if scope == "subtree" && !lib.ElemsUnder(l.Elems, scopePath) {
+					want.Leaves[p] = l // outside the struct that is pruned
+					continue
+				}
 				var dn []string
 				for _, e := range l.Elems {
 					dn = append(dn, e.Name)
@@ -86,9 +110,9 @@ func runC32(r *lib.Run) {
 			}
 			r.Case(caseKey(cfg, before), nFalse > 0 && nTrue > 0)
 			r.Hit("cfg:" + cfg.Name)
-			w := wit(cfg, r.Seed, i, map[string]interface{}{"tree": before.Dump()})
+			w := wit(cfg, r.Seed, i, map[string]interface{}{"tree": before.Dump(), "scope": scope, "scope_path": lib.PathString(scopePath)})
 			var perr error
-			if r.Guard("PruneConfigFalse", w, func() { perr = ygot.PruneConfigFalse(cfg.RootEntry(), t) }) {
+			if r.Guard("PruneConfigFalse", w, func() { perr = ygot.PruneConfigFalse(tschema, target) }) {
 				continue
 			}
 			if perr != nil {
@@ -108,15 +132,16 @@ func runC32(r *lib.Run) {
 				} else if d.A != "" {
 					cl = "value-changed"
 				}
-				r.Violate(cl, featOf(d), d.String(), w)
+				r.Violate(cl, scope+":"+featOf(d), d.String(), w)
 			}
 			if !bad {
 				r.Hit("pruned-ok")
+				r.Hit("pruned-ok:" + scope)
 			}
 			if i < 2 {
 				r.Sample(map[string]interface{}{"cfg": cfg.Name, "leaves_before": len(before.Leaves), "config_false": nFalse, "leaves_after": len(after.Leaves)})
 			}
 		}
 	}
-	r.RequireCov("pruned-ok", "cfg:vt/U-simple", "cfg:vtoc/C-simple", "cfg:vtoc/C-opstate", "kept:state-leaf-with-config-counterpart")
+	r.RequireCov("pruned-ok", "pruned-ok:root", "pruned-ok:subtree", "cfg:vt/U-simple", "cfg:vtoc/C-simple", "cfg:vtoc/C-opstate", "kept:state-leaf-with-config-counterpart")
 }
